@@ -156,8 +156,16 @@ func checkScreen(rawRows []string, rawSt *Status, cfg screenCfg) (string, bool) 
 				role[i] = "prompt"
 				promptRows++
 				m := infoRe.FindStringSubmatch(r[len(cfg.prompt+st.Query):])
-				if strings.HasSuffix(strings.TrimRight(r, " "), "..") && m[3] == "" {
-					m[3] = strconv.Itoa(len(st.Selected)) // the info itself is cut by the window: accepted
+				if tr := strings.TrimRight(r, " "); strings.HasSuffix(tr, "..") {
+					// the info itself is cut by the window: what is left of it is the beginning of the full text
+					full := fmt.Sprintf("%d/%d", st.MatchCount, st.TotalCount)
+					if cfg.multi {
+						full += fmt.Sprintf(" (%d)", len(st.Selected))
+					}
+					shown := strings.TrimSuffix(tr, "..")
+					if i := strings.LastIndex(shown, "< "); i >= 0 && strings.HasPrefix(full, strings.TrimRight(shown[i+2:], " ")) {
+						continue
+					}
 				}
 				if msg := checkInfo(m, st, cfg); msg != "" {
 					return msg + fmt.Sprintf(" (row %q)", r), false
@@ -480,6 +488,18 @@ func c15Session(t *rapid.T) {
 	loadedAlt := false
 	history := []string{fmt.Sprintf("fzf %q  (%d lines, window %dx%d)", args, n, cfg.width, cfg.height)}
 	sawTrunc, partial := false, false
+	agreesWithInput := func(st *Status) bool {
+		src := lines
+		if loadedAlt {
+			src = alt
+		}
+		for _, m := range st.Matches {
+			if k := m.Index + nhl; k < 0 || k >= len(src) || src[k] != m.Text {
+				return false
+			}
+		}
+		return true
+	}
 	verify := func(step string) {
 		// wait for a stable state, then for a screen that shows it
 		var st *Status
@@ -497,7 +517,9 @@ func c15Session(t *rapid.T) {
 				}
 				prev = string(b)
 				st = cur
-				if stable >= 2 {
+				// a reload that was posted may not have begun yet: a state that still lists lines of
+				// the previous input is not the one to look at (it is judged when the time is up)
+				if stable >= 2 && agreesWithInput(cur) {
 					break
 				}
 			}
